@@ -1,3 +1,12 @@
 //go:build verif
 
 package forwarder
+
+import (
+	nl "github.com/khirono/go-nl"
+
+	"github.com/free5gc/go-upf/internal/forwarder/perio"
+)
+
+func (g *Gtp5g) VerifPerio() *perio.Server { return g.ps }
+func (g *Gtp5g) VerifMux() *nl.Mux         { return g.mux }
